@@ -1,6 +1,11 @@
 """C15 — character arrays and strings round-trip, including the terminator.
 
-Tie: correspondence.  bytes / str values (ASCII, Latin-1, BMP, astral, lone and adjacent surrogates, embedded
+Tie: (a) regenerated.  The wide-character helpers of src/c/wchar_helper_3.h (_my_PyUnicode_SizeAsChar16/32,
+_my_PyUnicode_AsChar16/32, _my_PyUnicode_AsSingleChar16/32, _my_PyUnicode_FromChar16/32) are regenerated into
+coq/C15/Gen.v on every run (tools/props/c15_regen.py: token templates of the recorded control structure, the
+tests / thresholds / surrogate arithmetic translated from the C expressions; fail closed = broken obligation) and
+the theorems (size = units written, decode(encode s), allocation exactness) are re-proved against them.
+(b) correspondence.  bytes / str values (ASCII, Latin-1, BMP, astral, lone and adjacent surrogates, embedded
 NUL) are used as ffi.new initializers (open and fixed-size arrays of every character element type) and assigned
 to struct fields / array items holding previous contents; the raw code units are read back through ffi.buffer
 and ffi.string / ffi.unpack are called on arrays and pointers over arbitrary raw units.  Every outcome is
@@ -8,8 +13,16 @@ compared with (a) the property evaluated with CPython's own codecs (utf-16-le / 
 (decides "violation") and (b) the Coq model C15/Model.v (decides "model mismatch").
 """
 from lib import vlib
+from props import c15_regen
 
 ID = "C15"
+
+
+def regen(ctx):
+    c15_regen.regen_file(vlib, ctx, "C15")
+    # the model is evaluated through Model.vo (also by --replay, which skips the proof re-check)
+    vlib.coq_make(["C15/Model.vo"])
+
 
 TYPES = {"char": ("E8", 1), "signed char": ("E8", 1), "unsigned char": ("E8", 1), "char16_t": ("E16", 2),
          "char32_t": ("E32", 4), "wchar_t": ("E32", 4)}
@@ -203,8 +216,9 @@ EXN = {"IndexError", "TypeError", "ValueError", "SystemError"}
 def resv_lit(o):
     if o[0] in ("bytes", "str"):
         return "Ok " + pv_lit(o)
-    if o[0] == "err" and o[1] in EXN:
-        return "Err " + o[1]
+    if o[0] == "err":
+        # classes the model does not name are compared as OtherException (which no model function returns)
+        return "Err " + (o[1] if o[1] in EXN else "OtherException")
     return None
 
 
@@ -381,22 +395,34 @@ def run(ctx):
                        "values > 0x10FFFF, with and without maxlen. Oracle: CPython codecs. Non-trivial = every case "
                        "that ran to a result; distinct by full case.")
     ctx.assumptions += [
-        "hand-written model C15/Model.v (units level); tied by this run's differential test on raw units read through "
+        "the string converters of wchar_helper_3.h are regenerated into C15/Gen.v by c15_regen.py (trusted: token "
+        "templates of the recorded control structure + a C-expression translator; any other shape is a broken "
+        "obligation); the rest of C15/Model.v (convert_array_from_object, b_string, b_unpack string branches) is "
+        "hand-written, at the level of units; both tied by this run's differential test on raw units read through "
         "ffi.buffer",
-        "CPython's utf-16-le/surrogatepass codec is the oracle for UTF-16; PyUnicode_AsUCS4 / PyUnicode_FromKindAndData "
-        "as documented",
+        "CPython (C15/Spec.v): PyUnicode_KIND is 4 exactly when a code point exceeds 0xFFFF; PyUnicode_FromKindAndData / "
+        "PyUnicode_New / PyUnicode_AsUCS4 as documented; CPython's utf-16-le/surrogatepass codec is the run-time oracle "
+        "for UTF-16",
         "little-endian units"]
     evaluate(ctx, generate(ctx))
 
 
 MANIFEST = dict(
-    technique="Coq proofs about a model of the string converters (UTF-16 size/encode/decode with surrogate bit arithmetic, "
-              "terminator rule, scans) + differential correspondence on raw units against CPython's codecs",
-    text="Proved: the separately computed UTF-16 size equals the number of units written; decode16(encode16 s) = s when no "
-         "high surrogate is immediately followed by a low one (refuted otherwise: known finding adjacent_surrogates); "
-         "ffi.string(ffi.new('T[]', s)) = s for zero-free s of every character type; conversion into T[k] is IndexError "
-         "/ units alone / units + ONE zero unit with later units unchanged (frame); ffi.string stops at the first zero "
-         "unit; ffi.unpack returns exactly n units. The model follows the code after the terminator fix (2103790).",
-    note="Trusted: Coq kernel; hand model C15/Model.v (tied by differential testing); CPython codecs and unicode "
-         "constructors. Theorems closed under the global context.",
+    technique="Coq proofs about the string converters REGENERATED from wchar_helper_3.h (UTF-16 size / encode / decode "
+              "with the surrogate bit arithmetic and the uint16/uint32 stores) and a unit-level model of the array "
+              "conversion (terminator rule, scans) + differential correspondence on raw units against CPython's codecs",
+    text="Proved on the regenerated code, for ALL code-point lists: the allocation computed by _my_PyUnicode_SizeAsChar16 "
+         "equals the number of units _my_PyUnicode_AsChar16 writes (C15_size16_agrees_with_writer, "
+         "C15_size16_is_encoded_length), the writer fails only with ValueError above 0x10FFFF, every unit written is "
+         "16-bit; _my_PyUnicode_FromChar16 fills the str it allocates exactly and never fails "
+         "(C15_from_char16_allocation_exact, _total); from_char16(as_char16 s) = s with every adjacent (high, low) "
+         "surrogate code-point pair joined and everything else - lone surrogates included - unchanged "
+         "(C15_decode16_encode16_general), so s round-trips exactly when no high surrogate is immediately followed by a "
+         "low one (C15_decode16_encode16_iff; refuted otherwise: known finding adjacent_surrogates); single-character "
+         "stores agree with the array conversion. On the hand model: ffi.string(ffi.new('T[]', s)) = s for zero-free s "
+         "of every character type; conversion into T[k] is IndexError / units alone / units + ONE zero unit with later "
+         "units unchanged (frame); ffi.string stops at the first zero unit; ffi.unpack returns exactly n units. The model "
+         "follows the code after the terminator fix (2103790).",
+    note="Trusted: Coq kernel; c15_regen.py (fail closed); hand part of C15/Model.v (tied by differential testing); CPython "
+         "codecs and unicode constructors (C15/Spec.v). Theorems closed under the global context.",
     design_ref="DESIGN.md §4 C15")
